@@ -84,6 +84,7 @@ def run(rep, tier):
     rep.rule('R03.1', 'sibling agreement: for every skeleton fact computed for one engine the other engine has the same fact -- phase-protocol verdict and event alphabet, iteration directions per site, exact _flags relation (set of (flags, return, events, flags\') tuples), monitor-protocol verdict, containment status of every callback call, run-state members covered by reset(), serialization key set')
     rep.rule('R03.3', 'isInFinal treats pseudo-states as neutral: a history child of a parallel does not keep the parallel from being final')
     rep.rule('R03.4', 'both engines use all terms of the conflict definition: the fast engine\'s precomputed matrix (same source, source ancestry both ways, exit-set overlap both ways) and the large engine\'s lazily filled cache (source ancestry both ways, exit-set overlap both ways)')
+    rep.rule('R03.8', 'the large engine\'s lazily filled conflict cache is used like the fast engine\'s matrix: per step the compatible set only narrows (intersection) and the conflicting set only grows (same rule as C01 R01.14)')
     rep.rule('R03.7', 'both engines compare the closed exit intervals with non-strict comparisons (overlap and membership tests)')
     rep.rule('R03.6', 'the fast engine\'s children relation holds direct children only (as in the large engine and in the transpiler tables): the bit is not set while walking up the ancestors')
     rep.rule('R03.5', 'both engines compute the transition domain with the same (specified) quantifier shape: source only if internal, compound and all targets inside; else nearest compound ancestor containing all targets')
@@ -254,6 +255,9 @@ def run(rep, tier):
     want_terms = {'same-source', 'source-ancestry#1', 'source-ancestry#2', 'exit-overlap#1', 'exit-overlap#2'}
     rep.check(terms == want_terms, 'R03.4', 'FastMicroStep::init|conflict terms', fi_.where(), 'the conflict matrix marks a pair as conflicting for %s; Predicates.cpp::conflicts: same source, source ancestry both ways, exit sets intersect; missing: %s' % (sorted(terms), sorted(want_terms - terms)))
 
+    # ---- R03.8 the large engine's selection bookkeeping (the fast engine has the complete matrix up front)
+    from .C01 import narrowing_polarity
+    narrowing_polarity(rep, fb, sk[L].f, 'LargeMicroStep', 'R03.8')
     # ---- R03.7 both engines treat exit intervals as closed
     for e in (L, F):
         cmps = sk[e].interval_comparisons()
